@@ -171,7 +171,18 @@ static int prim_hmac(const pc_t *pc, char *human, char *what)
     in = xdup(msg, (size_t) pc->n, pc->i);
     out = xout((size_t) hl, pc->o);
     hk = xout((size_t) hl, 0);
-    ref_hmac(h->halg, key.p, (size_t) pc->k, msg, (size_t) pc->n, exp);
+    {
+        /* 1-entry cache of the reference MAC (partitions of one message repeat it) */
+        static int c_g = -1, c_k = -1, c_n = -1;
+        static const uch *c_msg;
+        static uch c_exp[64];
+        if (c_g != pc->g || c_k != pc->k || c_n != pc->n || c_msg != msg)
+        {
+            ref_hmac(h->halg, key.p, (size_t) pc->k, msg, (size_t) pc->n, c_exp);
+            c_g = pc->g; c_k = pc->k; c_n = pc->n; c_msg = msg;
+        }
+        memcpy(exp, c_exp, 64);
+    }
     vhex("key", key.p, (size_t) pc->k);
     vhex("message", in.p, (size_t) pc->n);
     ukey = key.p; ukl = (psSize_t) pc->k;
